@@ -98,25 +98,37 @@ def strings_of(entry):
 
 
 # ---------------------------------------------------------------- braces
+def _prev_brace(s, i):
+    """the nearest brace character before index i ('' if none)"""
+    j = i - 1
+    while j >= 0:
+        if s[j] == "{" or s[j] == "}":
+            return s[j]
+        j -= 1
+    return ""
+
+
+def _next_brace(s, i):
+    j = i + 1
+    n = len(s)
+    while j < n:
+        if s[j] == "{" or s[j] == "}":
+            return s[j]
+        j += 1
+    return ""
+
+
 def brace_faults(s):
-    """Indexes of offending braces, ascending: a '{' that is still open when another '{' or the end of the
-    text arrives, and a '}' with no open '{'."""
+    """Indexes of offending braces, ascending.  Stated per position (no scanner state): a '{' is sound iff the
+    next brace character after it is '}', a '}' is sound iff the nearest brace character before it is '{'."""
     bad = []
-    open_at = -1
     i = 0
     for ch in s:
-        if ch == "{":
-            if open_at >= 0:
-                bad.append(open_at)
-            open_at = i
-        elif ch == "}":
-            if open_at >= 0:
-                open_at = -1
-            else:
-                bad.append(i)
+        if ch == "{" and _next_brace(s, i) != "}":
+            bad.append(i)
+        elif ch == "}" and _prev_brace(s, i) != "{":
+            bad.append(i)
         i += 1
-    if open_at >= 0:
-        bad.append(open_at)
     return bad
 
 
